@@ -12,11 +12,6 @@ CONSTANTS
   Threadeds = {FALSE, TRUE}
   Givens = {}
   Blockeds = {"none"}
-  Flags = {}
+  Flags = {"shared_sleep_patcher"}
 INVARIANT Restored
-INVARIANT Contained
-INVARIANT NoSpuriousFb
-INVARIANT OutputLedger
-INVARIANT InputFifo
-CONSTRAINT Export
 CHECK_DEADLOCK FALSE
